@@ -179,6 +179,47 @@ def mutants(argv: List[str]) -> int:
     return 0 if not missed else 1
 
 
+def seeded(argv: List[str]) -> int:
+    """Every confirmed seeded change under /verif/seeded must still make its property's quick check exit 1."""
+    only = set(a for a in argv if a != "x")
+    repo = os.environ.get("VERIF_REPO", "/repo")
+    base = tempfile.mkdtemp(prefix="verif-seeded-")
+    rows = []
+    try:
+        for d in sorted(glob.glob(os.path.join(VERIF, "seeded", "*"))):
+            name = os.path.basename(d)
+            meta = json.load(open(os.path.join(d, "meta.json")))
+            pid = meta.get("verified_by_me", {}).get("property") or meta.get("property")
+            if only and name not in only and pid not in only:
+                continue
+            wt = os.path.join(base, name)
+            r = subprocess.run(["git", "-C", repo, "worktree", "add", "-q", "--detach", wt, "HEAD"], capture_output=True, text=True)
+            if r.returncode:
+                rows.append((name, pid, "HARNESS", r.stderr[-200:]))
+                continue
+            try:
+                a = subprocess.run(["git", "-C", wt, "apply", os.path.join(d, "patch.diff")], capture_output=True, text=True)
+                if a.returncode:
+                    rows.append((name, pid, "STALE", a.stderr[-200:]))
+                    continue
+                env = dict(os.environ, VERIF_REPO=wt, VERIF_NO_EVIDENCE="1", VERIF_REPLAY_DIR=os.path.join(base, "replays"))
+                t0 = time.time()
+                p = subprocess.run([sys.executable, os.path.join(VERIF, "check"), pid, "quick"], capture_output=True, text=True,
+                                   env=env, timeout=1800)
+                keys = [l.strip()[5:] for l in p.stdout.splitlines() if l.strip().startswith("key: ")]
+                status = "CAUGHT" if p.returncode == 1 else ("HARNESS" if p.returncode == 2 else "MISSED")
+                rows.append((name, pid, status, "%s %.0fs" % (keys[:2], time.time() - t0)))
+            finally:
+                subprocess.run(["git", "-C", repo, "worktree", "remove", "--force", wt], capture_output=True)
+            print("%-42s %-4s %-7s %s" % rows[-1], flush=True)
+    finally:
+        shutil.rmtree(base, ignore_errors=True)
+        subprocess.run(["git", "-C", repo, "worktree", "prune"], capture_output=True)
+    missed = [r for r in rows if r[2] != "CAUGHT"]
+    print("selftest-seeded: %d seeded changes, %d caught, %d not" % (len(rows), len(rows) - len(missed), len(missed)))
+    return 0 if not missed else 1
+
+
 def main(what: str, argv: List[str]) -> int:
     if what == "selftest-smoke":
         return smoke()
@@ -190,5 +231,7 @@ def main(what: str, argv: List[str]) -> int:
         return fidelity()
     if what == "selftest-mutants":
         return mutants(argv)
+    if what == "selftest-seeded":
+        return seeded(argv)
     print("unknown selftest %s" % what)
     return 2
